@@ -1,7 +1,7 @@
 from propcfg.common import *
 
 CFG = {
-    "disabled": True,
+    "disabled": False,
     "props": "Props/C08.v",
     "corr": ["Corr/DKGCorr.v"],
     "engines": [("dkgsm", [])],
